@@ -15,6 +15,8 @@ Decided (AVN, exact):
 Not decided: the O((|w|dt)^(k+1)) error constants, the cumulative-Euler 'integration' method.
 Added after the seeding rounds (DESIGN.md 6.6-6.8):
  PROTOCOL (order/method forwarded), ANGVEL.gate (no tolerance gate between consecutive samples), null-accelerometer step of the MARG entry points.
+Added after seeding rounds 5 and 6 and refactoring round 4 (DESIGN.md 6.10-6.12):
+ PROTOCOL for every filter named in the property; motion thresholds recorded by ANGVEL.gate.
 """
 import ast
 from math import factorial
